@@ -313,6 +313,8 @@ def r3_no_storage(R) -> None:
         R.saw_function(fi)
         for x in ast.walk(fi.node):
             if isinstance(x, ast.Call) and isinstance(x.func, ast.Attribute) and x.func.attr in ('add_variable', 'add_attribute'):
+                if fi.name == x.func.attr and is_super_call(x, x.func.attr) and x.args and text(x.args[0]).startswith(RES + '('):
+                    continue    # the override that forwards the caller's own request, with the name resolved
                 R.violation(q, 'alias-storage:' + text(x)[:50], f'`{text(x)[:60]}`: the alias mixin creates storage (aliases must not add series or attributes)',
                             where=f'{fi.module.relpath}:{x.lineno}')
             if isinstance(x, (ast.Assign, ast.AugAssign)):
@@ -373,6 +375,22 @@ def r3_no_storage(R) -> None:
                                 R.violation(q2, f'alias-mutates-foreign:{fi.name}:{text(a_)[:30]}', f'`{text(c)[:60]}`: `{fi.name}()` changes its argument `{p_}` in place and receives '
                                             f'`{text(a_)[:40]}`, an object the alias layer does not own (e.g. the container\'s live index list): aliases would be added to it',
                                             where=f'{fi2.module.relpath}:{c.lineno}')
+    # creating a variable *under an alias name* would give the alias storage of its own (unreachable by that name, since reads
+    # resolve the alias, but counted in size / values / exports): the mixin must route add_variable through the alias map too
+    aq = f'{A}.add_variable'
+    if aq not in R.repo.functions:
+        R.violation(A, 'add-variable-alias-unaware',
+                    'AliasMixin does not override add_variable(): m.add_variable(<alias>, ...) is not the same operation on the underlying variable (which raises '
+                    'DuplicateNameError) - it appends the alias to index/names and stores a separate array under it, which `m.<alias>` never reaches but `size`, `values` and '
+                    'to_dataframe() include', where='fsic/extensions/common.py')
+    else:
+        fa = Fn(R, aq)
+        calls_ = [x for x in ast.walk(fa.fi.node) if is_super_call(x, 'add_variable')]
+        nm_ = (fa.fi.params() + ['name', 'name'])[1]
+        resolved = any(c_.args and text(c_.args[0]) == f'{RES}({nm_})' for c_ in calls_)
+        rejected = any(fa.holds(r_.id, f'{nm_} in self.aliases') or fa.holds(r_.id, f'{RES}({nm_}) != {nm_}') for r_ in fa.raises())
+        R.check(bool(calls_) and (resolved or rejected), aq, 'add-variable-alias-aware', 'add_variable through an alias acts on the underlying variable (or is rejected)',
+                f'AliasMixin.add_variable neither resolves the name (`super().add_variable({RES}({nm_}), ...)`) nor rejects alias names', where=fa.fi.where)
     # the same within one method (a helper read in place): what a base-class method handed back, then changed in place
     for q, fi in R.repo.functions.items():
         if not q.startswith(A + '.'):
